@@ -184,9 +184,7 @@ def run(ctx) -> None:
                 continue
             for kind in ("req", "resp"):
                 case = {"kind": kind, "key": _key(k).hex(), "payload": _payload(L, k).hex(), "counter": (L * 37 + k * 1001) & 0xFFF}
-                v = _run_one(ctx, case)
-                if v:
-                    ctx.violation(v[0], case, v[1])
+                ctx.check(case, lambda c: _run_one(ctx, c))
     ctx.sweep("payload length 0..300 x keys x {req,resp}", n * 2, True)
     # every counter 0..4095 for a few lengths
     m = 0
@@ -197,9 +195,7 @@ def run(ctx) -> None:
                 continue
             for kind in ("req", "resp"):
                 case = {"kind": kind, "key": _key(5).hex(), "payload": _payload(L, 99).hex(), "counter": cnt}
-                v = _run_one(ctx, case)
-                if v:
-                    ctx.violation(v[0], case, v[1])
+                ctx.check(case, lambda c: _run_one(ctx, c))
     ctx.sweep("counter 0..4095 x lengths x {req,resp}", m * 2, True)
     # tamper: every single-bit flip of one response per residue (V2-in-V3 payloads have residue 10 only, so raw payloads too)
     t = 0
@@ -222,9 +218,7 @@ def run(ctx) -> None:
                 if not ctx.mine(t):
                     continue
                 case = {"kind": "tamper", "key": _key(r).hex(), "frame": frame.hex(), "counter": 7, "bit": bit, "inner": inner}
-                v = _run_one(ctx, case)
-                if v:
-                    ctx.violation(v[0], case, v[1])
+                ctx.check(case, lambda c: _run_one(ctx, c))
     ctx.sweep("single-bit flips of one response per residue", t, True)
 
     hexb = lambda s: s.map(lambda b: b.hex())
